@@ -100,6 +100,18 @@ def parseCfg : JVal → Option Cfg
 
 /-! ### forests -/
 
+/-- The harness' sort key of the parts of an attribute name before the local name
+(`common.rs: qkey`): `0<ns>` without prefix, `1<prefix>\x01<ns>` with one. -/
+def parseQual : Str → Option (Option Str × Str)
+  | 48 :: ns => some (none, ns)
+  | 49 :: rest => some (some (rest.takeWhile (· != 1)), (rest.dropWhile (· != 1)).drop 1)
+  | _ => none
+
+def showQual (a : Attr) : Str :=
+  match a.pfx with
+  | none => 48 :: a.ns
+  | some p => 49 :: p ++ 1 :: a.ns
+
 mutual
 partial def parseForest : List String → Option (List Node × List String)
   | [] => none
@@ -129,8 +141,8 @@ partial def parseNode : List String → Option (Node × List String)
 partial def parseAttrs : Nat → List String → List Attr → Option (List Attr × List String)
   | 0, rest, acc => some (acc.reverse, rest)
   | k + 1, q :: n :: v :: rest, acc =>
-    match parseText q, parseText n, parseText v with
-    | some q, some n, some v => parseAttrs k rest (⟨q, n, v⟩ :: acc)
+    match (parseText q).bind parseQual, parseText n, parseText v with
+    | some (p, ns), some n, some v => parseAttrs k rest (⟨p, ns, n, v⟩ :: acc)
     | _, _, _ => none
   | _, _, _ => none
 end
@@ -151,7 +163,7 @@ partial def printNode : Node → List String
   | .text s => ["t", textTok s]
   | .elem n attrs ch =>
     ["e", textTok n, toString attrs.length] ++
-      attrs.flatMap (fun a => [textTok a.qual, textTok a.name, textTok a.value]) ++ printForest ch
+      attrs.flatMap (fun a => [textTok (showQual a), textTok a.name, textTok a.value]) ++ printForest ch
 end
 
 def showForest (f : List Node) : String := " ".intercalate (printForest (mergeText f))
